@@ -189,10 +189,18 @@ func ShapesFor(f Field, c *Counter, gob bool) []Shaped {
 			{"key-full", reflect.ValueOf(ap.PublicKey{ID: c.ID("key"), Owner: c.ID("owner"), PublicKeyPem: "-----BEGIN PUBLIC KEY-----\nMIIB\n-----END PUBLIC KEY-----"})},
 			{"key-idonly", reflect.ValueOf(ap.PublicKey{ID: c.ID("key")})},
 			{"key-pemonly", reflect.ValueOf(ap.PublicKey{PublicKeyPem: "PEM"})},
+			// (a key with nothing but an owner is "no key" for both encoders - they test id and key material - and is outside the domain)
+			{"key-id-owner", reflect.ValueOf(ap.PublicKey{ID: c.ID("key"), Owner: c.ID("owner")})},
 		}
 	case KEndpoints:
+		// each endpoint alone (a presence guard that looks at the wrong member loses exactly these), then all of them
 		return []Shaped{
 			{"endpoints-shared", reflect.ValueOf(&ap.Endpoints{SharedInbox: c.ID("shared")})},
+			{"endpoints-upload", reflect.ValueOf(&ap.Endpoints{UploadMedia: c.ID("up")})},
+			{"endpoints-oauth-auth", reflect.ValueOf(&ap.Endpoints{OauthAuthorizationEndpoint: c.ID("oa")})},
+			{"endpoints-oauth-token", reflect.ValueOf(&ap.Endpoints{OauthTokenEndpoint: c.ID("ot")})},
+			{"endpoints-provide-key", reflect.ValueOf(&ap.Endpoints{ProvideClientKey: c.ID("pk")})},
+			{"endpoints-sign-key", reflect.ValueOf(&ap.Endpoints{SignClientKey: c.ID("sk")})},
 			{"endpoints-all", reflect.ValueOf(&ap.Endpoints{SharedInbox: c.ID("shared"), UploadMedia: c.ID("up"), OauthAuthorizationEndpoint: c.ID("oa"), OauthTokenEndpoint: c.ID("ot"), ProvideClientKey: c.ID("pk"), SignClientKey: c.ID("sk")})},
 		}
 	}
